@@ -80,7 +80,8 @@ def query_markers(refm, query_genes, tmp, n_proc=2, n_per_utility=2, behemoth_cu
     with warnings.catch_warnings():
         warnings.simplefilter('ignore')
         return create_marker_gene_lookup_from_ref_list(
-            [refm], query_gene_names=list(query_genes), n_per_utility=n_per_utility,
+            list(refm) if isinstance(refm, (list, tuple)) else [refm],
+            query_gene_names=list(query_genes), n_per_utility=n_per_utility,
             n_per_utility_override=override, n_processors=n_proc, behemoth_cutoff=behemoth_cutoff,
             tmp_dir=tmp, **kw)
 
